@@ -2,6 +2,7 @@
 import Frugal.Proofs.RoundTrip
 import Frugal.Proofs.NormFacts
 import Frugal.Proofs.ClearNocopy2
+import Frugal.Proofs.RoundTripHolder
 import Frugal.Props.Instances
 namespace Frugal.C01
 open Frugal
@@ -46,6 +47,32 @@ theorem roundtrip (S : Schema) (hS : S.ok = true) (hside : S.rtSide) (sid : Nat)
   apply roundtrip_full Instances.params_valid S hS hside sid xs ds h' ht hdest hn hf hr
   have hv := Instances.valid_depth
   simp only [Params.validDepth, Bool.and_eq_true, decide_eq_true_eq] at hv
+  have : Generated.params.maxDepth = 1023 := rfl
+  omega
+
+/-- **C01 with retained unknown fields** (hypothesis (iv) of `roundtrip` removed at the top level).
+    A value `.st xs h` whose holder `h` is the serialisation of well-formed fields `us` that the schema
+    does not recognise — what a decode leaves there (C11) — with skippable nesting (≤ 64): encode, then
+    decode into any destination of the type succeeds, consumes exactly the encoded length, returns the
+    recognised fields in normal form and the holder **byte for byte** (`h` again; for a type without
+    the holder `h` is empty by typing and the destination's is kept).  The field values `xs` themselves
+    are holder-free here (a nested holder is re-emitted and re-read by the same argument one level
+    down: `C11.intermediary_loses_nothing`, not composed into a round-trip statement). -/
+theorem roundtrip_with_top_holder (S : Schema) (hS : S.ok = true) (hside : S.rtSide) (sid : Nat)
+    (xs ds : List Val) (h h' : Bytes) (us : List (Nat × TVal))
+    (hser : serFields us = h) (hwu : wfFields us = true)
+    (hunk : ∀ p ∈ us, lookupKnown (S.get sid) p.1 p.2.tag = none ∧ skipNeed p.2 ≤ 64)
+    (ht : hasTy S (.strct sid) (.st xs h) = true) (hdest : hasTy S (.strct sid) (.st ds h') = true)
+    (hn : noHolderList xs = true) (hf : sizesFitList xs = true)
+    (hr : rtOK S (.strct sid) (.st xs h) = true)
+    (hd : depth (toWire S (.strct sid) (.st xs h)) ≤ 511) :
+    decodeM Generated.params S sid (appendM Generated.params S sid (.st xs h)) (.st ds h') =
+      .ok (.st (normFields S (S.get sid) (S.get sid).fields xs ds)
+            (if (S.get sid).hasHolder && h.length > 0 then h else h'),
+           (appendM Generated.params S sid (.st xs h)).length) := by
+  have hsk : Generated.params.skipDepth = 64 := rfl
+  apply roundtrip_top_holder Instances.params_valid S hS hside sid xs ds h h' us hser hwu
+    (by rw [hsk]; exact hunk) ht hdest hn hf hr
   have : Generated.params.maxDepth = 1023 := rfl
   omega
 
